@@ -44,7 +44,7 @@ def switch_basic(unknown: bool = False, fall: bool = False) -> Spec:
     k = F if fall else (OK,)
     return Spec("switch_basic", [
         Node("A"),
-        Node("S", (("a", In("A")),), labels=("l1", "l2"), unknown_label=unknown),
+        Node("S", (("a", In("A")),), labels=("l1", "l2"), unknown_label=unknown, none_label=unknown),
         Node("X", (("a", In("A")),), kinds=k),
         Node("Y", (("a", In("A")),), kinds=k),
         Node("O", (("v", Sw("S", (("l1", "X"), ("l2", "Y")), "sw")), ("a", In("A")))),
@@ -195,6 +195,41 @@ def oneof_shared_dep() -> Spec:
     ], "A", "O")
 
 
+def oneof_shared_inflight() -> Spec:
+    """A (slow, healthy) node Sh is needed by the first candidate's sub-pipeline AND by the main pipeline; the
+    candidate fails at an intermediate node (Fl -> Mid -> C1) while Sh may still be in flight."""
+    return Spec("oneof_shared_inflight", [
+        Node("A"),
+        Node("Sh", (("a", In("A")),)),
+        Node("Fl", (("a", In("A")),), kinds=F),
+        Node("Mid", (("f", In("Fl")),)),
+        Node("C1", (("m", In("Mid")), ("s", In("Sh")))),
+        Node("C2", (("a", In("A")),)),
+        Node("O", (("v", OneOf(("C1", "C2"))), ("s", In("Sh")))),
+    ], "A", "O", dur_nodes=("Sh", "Fl", "Mid"))
+
+
+def oneof_reached_twice() -> Spec:
+    """The consumer M of an inner one-of is reached by both candidates of an outer one-of: the second candidate's
+    sub-pipeline is built after the inner one-of was resolved and must not pull in its untried candidate C2."""
+    return Spec("oneof_reached_twice", [
+        Node("A"),
+        Node("C1", (("a", In("A")),), kinds=F), Node("C2", (("a", In("A")),), kinds=F),
+        Node("M", (("v", OneOf(("C1", "C2"))),)),
+        Node("P", (("m", In("M")),), kinds=F), Node("Q", (("m", In("M")),)),
+        Node("O", (("v", OneOf(("P", "Q"))),)),
+    ], "A", "O", dur_nodes=("C1", "P"))
+
+
+def retry_attempts_zero() -> Spec:
+    """attempts = 0 is 'unset' (NodeRetryPolicy: attempts or 1): exactly one invocation."""
+    return Spec("retry_attempts_zero", [
+        Node("A"),
+        Node("R", (("a", In("A")),), kinds=(OK, E1), kind_slots=3, attempts=0, delay=1),
+        Node("O", (("r", In("R")),)),
+    ], "A", "O")
+
+
 def oneof_diamond() -> Spec:
     """First candidate joins a fallible chain F -> M and an independent (possibly slow) node S:
     F may fail while S is still in flight, so the failing branch cancels pending sibling work."""
@@ -228,6 +263,19 @@ def rec_inner_start(max_iter: int = 2, use_default: bool = False) -> Spec:
         Node("D", (("m", In("M")),), recurrent=True, want_max=max_iter + 1, use_default=use_default),
         Node("Side", (("a", In("A")),)),
         Node("O", (("d", Rec("S", "D", max_iter)), ("side", In("Side")))),
+    ], "A", "O")
+
+
+def rec_side_input(max_iter: int = 1) -> Spec:
+    """A node inside the subgraph (M) also depends on a node outside it (Side) that is neither an ancestor nor a
+    descendant of the start node: Side must run once, whatever the number of iterations."""
+    return Spec("rec_side_input", [
+        Node("A"),
+        Node("S", (("a", In("A")),), takes_ad=True),
+        Node("Side", (("a", In("A")),)),
+        Node("M", (("s", In("S")), ("side", In("Side")))),
+        Node("D", (("m", In("M")),), recurrent=True, want_max=max_iter + 1, use_default=True),
+        Node("O", (("d", Rec("S", "D", max_iter)),)),
     ], "A", "O")
 
 
@@ -339,6 +387,7 @@ def retry_chain(attempts: int = 3, use_default: bool = True) -> Spec:
 TEMPLATES: Dict[str, Callable[..., Spec]] = {f.__name__: f for f in [
     chain, rhombus, fan, mixed_modes, switch_basic, switch_deep, switch_nested, switch_shared_case,
     switch_case_also_input, oneof_basic, oneof_depth, oneof_three, oneof_nested, oneof_sibling,
-    oneof_chained, oneof_with_switch, oneof_with_switch_deep, oneof_shared_dep, oneof_diamond, rec_simple, rec_inner_start, rec_outside_reader,
-    rec_two_scopes, rec_outside_reader_slow, rec_with_switch, rec_with_oneof, rec_in_oneof, rec_nested, retry_sibling, retry_chain,
+    oneof_chained, oneof_with_switch, oneof_with_switch_deep, oneof_shared_dep, oneof_diamond,
+    oneof_shared_inflight, oneof_reached_twice, retry_attempts_zero, rec_simple, rec_inner_start, rec_outside_reader,
+    rec_two_scopes, rec_outside_reader_slow, rec_side_input, rec_with_switch, rec_with_oneof, rec_in_oneof, rec_nested, retry_sibling, retry_chain,
 ]}
